@@ -290,9 +290,11 @@ func (c *Collection) PullID(ctx context.Context, id string, opts ...ReadOption) 
 	}
 
 	send := make(chan *ValueChange)
+	// subscribe before returning, not at some later time in the go routine, so writes that follow this call aren't missed
+	changes := c.Pull(ctx, opts...)
 	go func() {
 		defer close(send)
-		for change := range c.Pull(ctx, opts...) {
+		for change := range changes {
 			if change.Id != id {
 				continue
 			}
